@@ -156,6 +156,10 @@ def canon_equal(gen_tok, v):
     if gen_tok == 'n':
         return v is None or (isinstance(v, bytes) and len(v) > 0 and set(v) == {0xff})
     ok, _ = B.value_matches(gen_tok, v)
+    if not ok and gen_tok[0] == 'y' and isinstance(v, bytes):
+        # a string shorter (longer) than its field is blank padded (cut) to the field width
+        g = bytes.fromhex('' if gen_tok[1:] == '-' else gen_tok[1:])
+        return len(g) != len(v) and v == g.ljust(len(v), b' ')[:len(v)]
     if not ok and gen_tok[0] == 'd' and isinstance(v, float):
         # a generated decimal with more than 53 significant bits is not a double: what was encoded
         # is the nearest double, and what reads back may differ from the exact decimal by one
@@ -183,6 +187,28 @@ def roundtrip_holds(c):
             if not canon_equal(tok, v):
                 return False
     return True
+
+
+def vary_string_lengths(c, rng):
+    """Replace some generated strings (always full width) by shorter ones (incl. empty, one byte, 33+ bytes short) or
+    longer ones: the encoder pads with blanks / cuts.  Changes c['val_toks'] and c['py_vals'] consistently."""
+    changed = 0
+    for si, toks in enumerate(c.get('val_toks') or []):
+        for k, t in enumerate(toks):
+            if t[0] != 'y' or t == 'y-' or rng.random() < 0.4:
+                continue
+            b = bytes.fromhex(t[1:])
+            if set(b) == {0xff}:
+                continue
+            n = len(b)
+            m = rng.choice([0, 1, max(n - 1, 0), max(n - 33, 0), max(n - 40, 0), n // 2, n + 3])
+            nb = (b + b'xyz')[:m]
+            if nb.endswith(b' ') or not nb:
+                nb = nb.rstrip(b' ')
+            toks[k] = 'y' + (nb.hex() or '-')
+            c['py_vals'][si][k] = nb
+            changed += 1
+    return changed
 
 
 def wide_field_cause(c):
